@@ -52,7 +52,6 @@ let check_C15 = check_with true oracle_turns
 
 (* C03: the variants of one byte stream (ids <n>.v<k>) must produce the identical log *)
 let seg_first : (string, string) Hashtbl.t = Hashtbl.create 1024
-let cur_id = ref ""
 let check_C03 (fields : sexp list) : verdict * string option =
   let (v, cross) = check_with false (fun _ _ -> true) fields in
   match v with
@@ -76,3 +75,4 @@ let check_C03 (fields : sexp list) : verdict * string option =
              (OracleFail (Printf.sprintf "the same byte stream delivered in another segmentation gives a different transcript\n    this:  %s\n    first: %s" log first), cross)
            else (v, cross))
 let check_C18 = check_with false (fun _ _ -> true)
+let check_C09 = check_with false oracle_C09
